@@ -24,7 +24,7 @@ RULE = ('cases = (function form, nrows, set of failing rows, set of failing fiel
         'Non-trivial: at least one failing and one non-failing row. Distinct = SHA-1 of the case.')
 ASSUMPTIONS = ['the private exception type identifies the converter failure', 'config default is read when the view is constructed (anchor mechanism)']
 EXC_NAMES_ = sorted(['InjectedFault'] + [b.__name__ for b in (KeyError, IndexError, ValueError, TypeError, AttributeError, ZeroDivisionError, RuntimeError, AssertionError, LookupError, ArithmeticError, UnicodeError, OSError, NotImplementedError, Exception)] + ['StopIteration'])
-FORMS = ['convert-callable', 'convert-multi', 'convert-method', 'convert-passrow', 'convert-where', 'convertall', 'convertnumbers', 'fieldmap', 'rowmap', 'rowmapmany']
+FORMS = ['convert-callable', 'convert-multi', 'convert-method', 'fieldmap-dict', 'convert-passrow', 'convert-where', 'convertall', 'convertnumbers', 'fieldmap', 'rowmap', 'rowmapmany']
 REQUIRED = (['form:' + f for f in FORMS] + ['policy:False', 'policy:True', 'policy:inline', 'via:config', 'via:arg',
             'fail-first-row', 'fail-last-row', 'fail-consecutive', 'fail-all-rows', 'exception-surfaced-at-failing-row',
             'inline-exception-delivered', 'errorvalue-delivered', 'row-dropped', 'generator-rows-kept-before-failure', 'rowmap:lazy-mapper-result', 'rows-longer-than-the-header', 'len-of-the-view-taken', 'cells-holding-exception-objects'] +
@@ -95,6 +95,9 @@ def cases(ctx):
                                                        'lazy': ('generator', 'genexp', 'map')[count[0] % 3]}
 
 
+PETL_SIDE = ('convert-method', 'fieldmap-dict')       # the failure arises in petl's own adapter around the argument, at field a
+
+
 class StaleError(Exception):
     """an exception object sitting in a cell of the input table"""
 
@@ -111,6 +114,9 @@ def _table(case):
                 b = StaleError((i, 'b'))
         if case['form'] == 'convert-method' and i in case['failrows']:
             a = None     # None.upper() -> AttributeError raised inside petl's methodcaller
+        if case['form'] == 'fieldmap-dict' and i in case['failrows']:
+            a = ['unhashable', i]     # looking a list up in fieldmap's translation dictionary -> TypeError raised inside petl (convert's dictionary form
+            #                           passes unhashable values through instead, by design)
         if case['form'] == 'convertnumbers':
             # the strict number parser raises ValueError for 'x..' cells and parses the others
             a = ('x%d' if (i in case['failrows'] and 'a' in case['failfields']) else '1%d') % i
@@ -189,6 +195,14 @@ def judge(case, ctx):
     elif form == 'convert-method':
         view = petl.convert(table, 'a', 'upper', **kw)
         exc_type = AttributeError
+    elif form == 'fieldmap-dict':
+        from collections import OrderedDict
+        m = OrderedDict()
+        m['id'] = 'id'
+        m['a'] = ('a', {'a%d' % i: 'A%d' % i for i in range(n)})
+        m['b'] = 'b'
+        view = petl.fieldmap(table, m, **kw)
+        exc_type = TypeError
     elif form == 'convert-passrow':
         view = petl.convert(table, ('a', 'b'), conv_row, pass_row=True, **kw)
     elif form == 'convert-where':
@@ -252,10 +266,10 @@ def judge(case, ctx):
     exp_rows = []
     exp_raise_after = None     # number of data rows delivered before the exception surfaces
     exp_raise_key = None
-    cell_forms = ('convert-callable', 'convert-multi', 'convert-method', 'convert-passrow', 'convert-where', 'convertall', 'convertnumbers', 'fieldmap')
+    cell_forms = ('fieldmap-dict', 'convert-callable', 'convert-multi', 'convert-method', 'convert-passrow', 'convert-where', 'convertall', 'convertnumbers', 'fieldmap')
     if form in cell_forms:
         hdr = ('id', 'A', 'B') if form == 'fieldmap' else ('id', 'a', 'b')
-        ffields = ('a',) if form == 'convert-method' else ('a', 'b')
+        ffields = ('a',) if form in PETL_SIDE else ('a', 'b')
         for i in range(n):
             src = table[1 + i]
             if not converted(i):
@@ -267,7 +281,7 @@ def judge(case, ctx):
                 if f not in ffields:
                     row.append(v)
                     continue
-                failing = fails(i, f) if form != 'convert-method' else (i in failrows)
+                failing = fails(i, f) if form not in PETL_SIDE else (i in failrows)
                 if failing:
                     if policy == 'inline':
                         row.append((EXC, (i, f)))
